@@ -470,6 +470,9 @@ func (p *Parser) parseBuffer(buf []byte, last bool) (err error) {
 			if depth < 0 || p.starts[depth] < 0 {
 				return p.newError(off, "unexpected array close")
 			}
+			if _, ok := p.stack[p.starts[depth]].(TokenFunc); ok {
+				return p.newError(off, "unexpected array close")
+			}
 			// Only modes with a close array are value, token, and numbers
 			// which are all over 256 long.
 			switch p.mode[256] {
